@@ -82,7 +82,8 @@ def expr(rng, depth=2, boolean=False, subq=True):
         k = rng.choice(['cmp', 'cmp', 'cmp', 'and', 'or', 'not', 'in', 'between', 'like', 'isnull', 'paren', 'insub', 'exists'])
     else:
         k = rng.choice(['cmp', 'arith', 'arith', 'func', 'leaf', 'leaf', 'case', 'cast', 'paren', 'neg', 'and',
-                        'in', 'between', 'like', 'isnull', 'concat', 'subq', 'not', 'tuplecmp', 'interval', 'typecast'])
+                        'in', 'between', 'like', 'isnull', 'concat', 'subq', 'not', 'tuplecmp', 'interval', 'typecast',
+                        'json', 'kwfunc', 'funcfrom', 'casearg'])
     if k == 'leaf':
         return expr(rng, 0)
     if k == 'cmp':
@@ -130,7 +131,21 @@ def expr(rng, depth=2, boolean=False, subq=True):
     if k == 'typecast':
         return f'{path(rng, 2)}::{rng.choice(TYPES)}'
     if k == 'interval':
-        return rng.choice(["INTERVAL '1 day'", "interval 3 hour"])
+        return rng.choice(["INTERVAL '1 day'", "interval 3 hour", "INTERVAL '2' week"])
+    if k == 'json':
+        return f'{path(rng, 2)} {rng.choice(["->", "->>"])} {rng.choice(STRINGS[:2] + ["0"])}'
+    if k == 'kwfunc':
+        return f'{rng.choice(["RIGHT", "LEFT", "FULL", "right"])}({path(rng, 1)}, 2)'
+    if k == 'funcfrom':
+        return rng.choice([f"extract(MONTH FROM {path(rng, 2)})", f"substring({path(rng, 1)} FROM 1 FOR 2)",
+                           f"trim({const(rng)} FROM {path(rng, 1)})", 'DATABASE()', f"DATE '2020-01-01'",
+                           f'CONVERT({path(rng, 1)}, int)', f'CONVERT({path(rng, 1)} USING utf8)', f'CAST({path(rng, 1)} AS decimal(10, 2))',
+                           f'CAST({path(rng, 1)} AS varchar(20))'])
+    if k == 'casearg':
+        n = rng.randint(1, 2)
+        whens = ' '.join(f'WHEN {const(rng)} THEN {expr(rng, d)}' for _ in range(n))
+        els = f' ELSE {expr(rng, d)}' if rng.random() < 0.5 else ''
+        return f'CASE {expr(rng, min(d, 1))} {whens}{els} END'
     if k == 'tuplecmp':
         return f'({path(rng, 1)}, {path(rng, 1)}) = ({const(rng)}, {const(rng)})'
     if k in ('subq', 'insub', 'exists'):
@@ -152,8 +167,11 @@ def target(rng, depth):
     if r < 0.18:
         return f'{ident(rng)}.*'
     e = expr(rng, depth)
-    if rng.random() < 0.3:
+    r = rng.random()
+    if r < 0.3:
         e += rng.choice([' AS ', ' as ', ' ']) + ident(rng, 0.2)
+    elif r < 0.34:
+        e += rng.choice([' AS ', ' ']) + rng.choice(["'al'", '"al2"', "'a b'"])
     return e
 
 
@@ -161,14 +179,17 @@ def from_item(rng, depth):
     r = rng.random()
     if r < 0.75 or depth <= 0:
         t = table(rng)
-        if rng.random() < 0.4:
+        r = rng.random()
+        if r < 0.4:
             t += rng.choice([' AS ', ' ']) + ident(rng)
+        elif r < 0.43:
+            t += rng.choice([' AS ', ' ']) + '"dq alias"'
         return t
     return f'({select(rng, depth - 1, simple=True)}) AS {ident(rng)}'
 
 
 JOINS = ['JOIN', 'INNER JOIN', 'LEFT JOIN', 'RIGHT JOIN', 'FULL JOIN', 'LEFT OUTER JOIN', 'FULL OUTER JOIN', 'CROSS JOIN',
-         'join', 'left join']
+         'join', 'left join', 'OUTER JOIN']
 
 
 def select(rng, depth=2, simple=False):
@@ -185,8 +206,10 @@ def select(rng, depth=2, simple=False):
             f += f' {jt} {from_item(rng, depth)}'
             if 'CROSS' not in jt and rng.random() < 0.9:
                 f += f' ON {expr(rng, 1, True, subq=False)}'
-        if nj == 0 and rng.random() < 0.05:
+        if nj == 0 and rng.random() < 0.06:
             f += f', {from_item(rng, 0)}'
+            if rng.random() < 0.4:
+                f += f', {from_item(rng, 0)}'
         parts.append('FROM ' + f)
         if rng.random() < 0.6:
             parts.append('WHERE ' + expr(rng, min(depth, 2), True))
@@ -322,6 +345,8 @@ def _create_table(rng):
             c += '(10)'
         elif r < 0.3:
             c += ' DEFAULT x'
+        elif r < 0.34:
+            c += '(10) DEFAULT x'
         elif r < 0.4:
             c += ' PRIMARY KEY'
         if rng.random() < 0.2:
@@ -369,7 +394,8 @@ def _show(rng):
                       'ENGINES', 'CHARSET', 'CHARACTER SET', 'COLLATION', 'PLUGINS', 'KNOWLEDGE_BASES', 'TRIGGERS',
                       'FUNCTION STATUS', 'PROCEDURE STATUS', 'TABLE STATUS', 'PROCESSLIST', 'FULL PROCESSLIST',
                       'CHATBOTS', 'AGENTS', 'SKILLS', 'FULL COLUMNS', 'EXTENDED FULL TABLES', 'ML_ENGINES', 'DATASOURCES',
-                      'SLAVE STATUS', 'REPLICA STATUS', 'CREATE TABLE t', 'MASTER STATUS', 'BINARY LOGS', 'PRIVILEGES'])
+                      'SLAVE STATUS', 'REPLICA STATUS', 'CREATE TABLE t', 'MASTER STATUS', 'BINARY LOGS', 'PRIVILEGES',
+                      'EXTENDED COLUMNS', 'ENGINE x STATUS', 'FUNCTION CODE f', 'CHARSET', 'SLAVE HOSTS'])
     s = 'SHOW ' + cat
     if cat.startswith(('SLAVE', 'REPLICA')):
         if rng.random() < 0.5:
@@ -396,6 +422,10 @@ def _set(rng):
         lambda: f'SET @@{rng.choice(["session", "global"])}.{rng.choice(PLAIN_IDS)} = {const(rng)}',
         lambda: f'SET {rng.choice(["GLOBAL", "SESSION", "PERSIST", "PERSIST_ONLY"])} {ident(rng, 0)} = {const(rng)}',
         lambda: f'SET NAMES {rng.choice(["utf8", "utf8mb4", chr(39) + "utf8" + chr(39)])}',
+        lambda: f"SET NAMES 'utf8' COLLATE {rng.choice(['utf8_general_ci', chr(39) + 'utf8_bin' + chr(39)])}",
+        lambda: f'SET {rng.choice(["GLOBAL", "SESSION", "PERSIST_ONLY"])} @{rng.choice(PLAIN_IDS[:3])} = {const(rng)}',
+        lambda: f'SET {ident(rng, 0)} {rng.choice(STRINGS[:4] + INTS[:3])}',
+        lambda: f'SET TRANSACTION ISOLATION LEVEL READ COMMITTED',
         lambda: f"SET NAMES utf8 COLLATE {rng.choice(['utf8_general_ci', chr(39) + 'utf8_bin' + chr(39)])}",
         lambda: f'SET {rng.choice(["CHARSET", "CHARACTER SET"])} {rng.choice(["utf8", chr(39) + "utf8" + chr(39), "DEFAULT"])}',
         lambda: f'SET autocommit, sql_mode = {const(rng)}' if False else f'SET autocommit = 1, sql_mode = {const(rng)}',
@@ -404,11 +434,22 @@ def _set(rng):
     ])()
 
 
+UOPS = ['UNION', 'UNION ALL', 'INTERSECT', 'EXCEPT', 'INTERSECT ALL', 'EXCEPT ALL']
+
+
 def _union(rng):
-    op = rng.choice(['UNION', 'UNION ALL', 'INTERSECT', 'EXCEPT', 'INTERSECT ALL', 'EXCEPT ALL'])
-    s = f'{select(rng, 1, True)} {op} {select(rng, 1, True)}'
-    if rng.random() < 0.3:
-        s += f' {rng.choice(["UNION", "UNION ALL"])} {select(rng, 0, True)}'
+    s = f'{select(rng, 1, True)} {rng.choice(UOPS)} {select(rng, 1, True)}'
+    if rng.random() < 0.4:
+        s += f' {rng.choice(UOPS)} {select(rng, 0, True)}'
+    r = rng.random()
+    if r < 0.1:
+        return f'({s})'
+    if r < 0.2:
+        return f'INSERT INTO {table(rng)} {s}'
+    if r < 0.3:
+        return f'WITH u AS ({s}) SELECT * FROM u'
+    if r < 0.4:
+        return f'SELECT * FROM ({s}) AS u'
     return s
 
 
@@ -442,7 +483,7 @@ def _model_join(rng):
     m = rng.choice(['mindsdb.pred', 'proj.model1', 'mindsdb.pred.3', 'pred'])
     s = f'SELECT {rng.choice(["*", "t.a, m.p", "m.*"])} FROM {table(rng)} AS t JOIN {m} AS m'
     if rng.random() < 0.5:
-        s += f' WHERE t.a > {rng.choice(["LATEST", "1", chr(39) + "2020-01-01" + chr(39)])}'
+        s += f' WHERE t.a {rng.choice([">", ">="])} {rng.choice(["LATEST", "LAST", "1", chr(39) + "2020-01-01" + chr(39)])}'
     if rng.random() < 0.3:
         s += ' LIMIT 10'
     if rng.random() < 0.3:
@@ -480,9 +521,10 @@ _STMT = {
     'create_model': _create_model,
     'anomaly_model': lambda r: f'CREATE ANOMALY DETECTION MODEL {path(r, 2, 0)}' + r.choice([
         '', f' FROM {ident(r, 0)} ({raw_inner(r)})', f' PREDICT {ident(r, 0)}',
-        f' FROM {ident(r, 0)} ({raw_inner(r)}) PREDICT {ident(r, 0)}']) + (f' USING {kw_params(r, n=1)}' if r.random() < 0.4 else ''),
+        f' FROM {ident(r, 0)} ({raw_inner(r)}) PREDICT {ident(r, 0)}', f' PREDICT {ident(r, 0)} FROM {ident(r, 0)} ({raw_inner(r)})']) + (f' USING {kw_params(r, n=1)}' if r.random() < 0.4 else ''),
     'retrain': lambda r: f'RETRAIN {r.choice(["", "MODEL "])}{path(r, 2, 0)}' + r.choice([
-        '', f' FROM {ident(r, 0)} ({raw_inner(r)})', f' FROM ({raw_inner(r)})', f' PREDICT {ident(r, 0)}']) + (
+        '', f' FROM {ident(r, 0)} ({raw_inner(r)})', f' FROM ({raw_inner(r)})', f' PREDICT {ident(r, 0)}',
+        f' FROM ({raw_inner(r)}) PREDICT {ident(r, 0)}', f' FROM {ident(r, 0)} ({raw_inner(r)}) PREDICT {ident(r, 0)}, {ident(r, 0)}']) + (
         f' USING {kw_params(r, n=1)}' if r.random() < 0.4 else ''),
     'finetune': lambda r: f'FINETUNE {r.choice(["", "MODEL "])}{path(r, 2, 0)} FROM {r.choice(["", ident(r, 0) + " "])}({raw_inner(r)})' + (
         f' USING {kw_params(r, n=1)}' if r.random() < 0.4 else ''),
@@ -490,7 +532,7 @@ _STMT = {
     'drop_model': lambda r: f'DROP {r.choice(["MODEL", "PREDICTOR"])} {_ie(r)}{path(r, 2, 0)}',
     'create_database': lambda r: f'CREATE {_rep(r)}DATABASE {_ine(r)}{ident(r, 0)}' + r.choice([
         '', " ENGINE 'pg'", " ENGINE = 'pg'", " WITH ENGINE 'mysql'", " WITH ENGINE = 'mysql'", " USING ENGINE = 'x'"]) + r.choice([
-        '', ', PARAMETERS = {"a": 1}', " PARAMETERS {'user': 'u', \"port\": 5432, 'n': {'k': [1, 2]}}", ' PARAMETERS = {}']),
+        '', ', PARAMETERS = {"a": 1}', ', PARAMETERS {"a": [1, 2.5, true, null]}', " PARAMETERS {'user': 'u', \"port\": 5432, 'n': {'k': [1, 2]}}", ' PARAMETERS = {}']),
     'create_project': lambda r: f'CREATE {_rep(r)}PROJECT {_ine(r)}{ident(r, 0)}',
     'drop_datasource': lambda r: f'DROP {r.choice(["DATASOURCE", "DATASET"])} {_ie(r)}{ident(r, 0)}',
     'create_ml_engine': lambda r: f'CREATE ML_ENGINE {_ine(r)}{ident(r, 0)} FROM {ident(r, 0)}' + (f' USING {kw_params(r, n=1)}' if r.random() < 0.5 else ''),
